@@ -7,6 +7,7 @@ import SqiProofs.QuatLatMul
 import SqiProofs.QuatIndex
 import SqiProofs.QuatDual
 import SqiProofs.QuatCanon
+import SqiProofs.QuatEqual
 import SqiGen.QuatAlg
 /- C14 — "Quaternion algebra and lattice arithmetic is exact and canonical".
    Property theorems about the hand model `SqiModel.Quat` (tie H: the model's executable definitions are run
@@ -182,6 +183,20 @@ theorem lattice_intersect_exact (l1 l2 : Lattice) (h1 : l1.denom ≠ 0) (h2 : l2
     (hd1 : (toMatrix l1.basis).det ≠ 0) (hd2 : (toMatrix l2.basis).det ≠ 0) :
     ratLat (latIntersect l1 l2) = ratLat l1 ⊓ ratLat l2 ∧ (latIntersect l1 l2).denom ≠ 0 ∧
     IsHNF (latIntersect l1 l2).basis ∧ Reduced (latIntersect l1 l2) := latIntersect_spec l1 l2 h1 h2 hd1 hd2
+
+/-- the basis returned by `quat_lattice_mul` is in Hermite normal form (both factors of full rank, p > 0: the algebra
+    has no zero divisors, so already (first column of L₁)·L₂ has full rank) -/
+theorem lattice_mul_isHNF (p : ℤ) (hp : 0 < p) (l1 l2 : Lattice) (h1 : l1.denom ≠ 0) (h2 : l2.denom ≠ 0)
+    (hd1 : (toMatrix l1.basis).det ≠ 0) (hd2 : (toMatrix l2.basis).det ≠ 0) : IsHNF (latMul p l1 l2).basis :=
+  latMul_isHNF p hp l1 l2 h1 h2 hd1 hd2
+
+/-- `quat_lattice_equal` is reflexive and symmetric for ALL inputs and transitive whenever the middle denominator is
+    non-zero — as a relation on the data, independent of any HNF precondition (a comparison that takes the absolute
+    value of the wrong denominator breaks the symmetry clause) -/
+theorem lattice_equal_equivalence (l1 l2 l3 : Lattice) :
+    latEqual l1 l1 = true ∧ latEqual l1 l2 = latEqual l2 l1 ∧
+    (l2.denom ≠ 0 → latEqual l1 l2 = true → latEqual l2 l3 = true → latEqual l1 l3 = true) :=
+  ⟨latEqual_refl l1, latEqual_symm l1 l2, latEqual_trans l1 l2 l3⟩
 
 /-- `quat_lattice_index` is the covolume ratio (the index when sub ⊆ over), for triangular bases -/
 theorem lattice_index_exact (sub over : Lattice) (hs : sub.denom ≠ 0) (ho : over.denom ≠ 0)
